@@ -73,6 +73,7 @@ structure Env where
   deriving Repr, DecidableEq
 
 structure Cfg where
+  hasSampler : Bool           -- `TraceparentFilter::new_with_sampler(..)` vs `TraceparentFilter::new()`
   decisions : List Bool       -- the sampler, as its sequence of answers
   outside : Bool              -- `in_sampled_trace_filter(match_events_outside_traces)`
   deriving Repr
@@ -138,7 +139,7 @@ def openSpan (c : Cfg) (e : Env) : Bool × Ids × Option Active × Env :=
   -- enumerated) followed by the ambient ids, so an absent parent shows the ambient `span_parent`
   let seen : Ids := ⟨traceId, cur.spanId.or cur.spanParent, some spanId⟩
   -- TraceparentFilter::matches on the span's start event: incoming_traceparent(sampler, props, SAMPLED)
-  let (fslot, calls1, obs1) := incoming c true e.st traceId (some spanId) .sampled e.calls
+  let (fslot, calls1, obs1) := incoming c c.hasSampler e.st traceId (some spanId) .sampled e.calls
   let enabled := match fslot with
     | some a => a.tp.sampled
     | none => true
